@@ -64,6 +64,17 @@ theorem merge_hunks_arity (terms : List Bytes) (hodd : terms.length % 2 = 1) (le
     (sc : SameChange) : ∀ h ∈ mergeInnerHunks terms level sc, h.length = 1 ∨ h.length = terms.length :=
   mergeInnerHunks_arity terms hodd level sc
 
+/-- **Order.**  Term `k` of the result of `merge` is the concatenation, in hunk order, of what each
+hunk contributes to term `k`: a resolved hunk (a slice of one input chosen by the cancellation rule, or
+the common content of a matching hunk) is copied into every term, an unresolved hunk contributes its
+own `k`-th term (the slice of input term `k`).  Together with C03 reconstruction this says the result
+is obtained from the inputs hunk by hunk, in input order. -/
+theorem merge_terms_concat (terms : List Bytes) (level : HunkLevel) (sc : SameChange) (r : List Bytes)
+    (h : merge terms level sc = some r) (k : Nat) (hk : k < r.length) :
+    r.getD k [] = (mergeInnerHunks terms level sc).flatMap (termOf k) := by
+  have := collectMergedGo_term _ _ _ h k hk
+  simpa [accTerm] using this
+
 /-! ### identity laws -/
 
 /-- **`SlicesRespectEquality`** for the line diff that `merge_inner` computes: in every hunk, inputs
